@@ -465,6 +465,19 @@ theorem C01_read_rule (A : DArr) (ix : IndexArg) :
        | .error _ => .error (.err .indexError)) :=
   readData_rule A ix
 
+/-- every way of reading the whole array is the same read: `np.array(da)` (`__array__`) and `read_direct` as written
+in the source, `da[:]`, `da[...]`, `da[()]` and `_read_data()` all return `readData A None` (rank ≥ 1) -/
+theorem C01_read_paths_agree (A : DArr) (hr : A.arr.shape ≠ []) :
+    Nix.Gen.DataSet.dsArray A = readData A .none ∧ Nix.Gen.DataSet.dsReadDirect A = readData A .none ∧
+    Nix.Gen.DataSet.dsGetItem A fullSlice = readData A .none ∧
+    Nix.Gen.DataSet.dsGetItem A (.one .ellipsis) = readData A .none ∧
+    Nix.Gen.DataSet.dsGetItem A (.tuple []) = readData A .none := by
+  have h := readData_whole A hr
+  refine ⟨dsArray_eq A, dsReadDirect_eq A, ?_, ?_, ?_⟩
+  · rw [dsGetItem_eq]; exact h.1
+  · rw [dsGetItem_eq]; exact h.2.1
+  · rw [dsGetItem_eq]; exact h.2.2
+
 /-- index arguments without `Ellipsis` select what `select` (the selection of `C01_assign_exact`) selects; one
 `Ellipsis` stands for the missing full slices; a second one is an error -/
 theorem C01_ellipsis (sh : List Nat) (pre post : List Ix) :
